@@ -23,6 +23,7 @@ type c14Replay struct {
 	Cuts   []int  `json:"cuts,omitempty"`
 	Expect uint16 `json:"expect"`
 	Got    uint16 `json:"got"`
+	Offset int    `json:"start_offset_in_buffer,omitempty"`
 }
 
 func init() {
@@ -30,7 +31,7 @@ func init() {
 		ID:    "C14",
 		Level: "model_checking",
 		Rule: "explicit-state: all 65536 register states (each reached on the implementation through New().Write of its unique 2-byte prefix) x all 256 next bytes, compared with a bitwise CRC-16/ARC; " +
-			"Reset and residue from every state; all byte strings of length<=3 (quick: <=2 plus stride on 3) under every write partition; long strings under every 1- and 2-cut partition; single Write / Checksum calls of sizes 2^k-1, 2^k, 2^k+1 for k=5..20; first use: Checksum / Write / byte-wise Write / Sum on 10 lengths as the first call a fresh process makes into the package, and ordered pairs of such calls (quick: lengths 255..4096; thorough: all), one process per history. " +
+			"Reset and residue from every state; all byte strings of length<=3 (quick: <=2 plus stride on 3) under every write partition; long strings under every 1- and 2-cut partition; single Write / Checksum calls of sizes 2^k-1, 2^k, 2^k+1 for k=5..20; alignment: every start offset 0..16 inside a larger buffer x 30 lengths up to 8192 through Checksum, one Write and a two-part Write; first use: Checksum / Write / byte-wise Write / Sum on 10 lengths as the first call a fresh process makes into the package, and ordered pairs of such calls (quick: lengths 255..4096; thorough: all), one process per history. " +
 			"distinct = distinct (state,byte)->state' transitions observed on the implementation",
 		Assumptions: []string{"reference is the textbook bitwise reflected CRC-16 (poly 0xA001, init 0, no final xor)"},
 		Run:         runC14,
@@ -59,6 +60,12 @@ func init() {
 				return "", err
 			}
 			data := vx.UnHex(r.Data)
+			if r.Offset > 0 {
+				// same bytes at the recorded distance from the start of an allocation
+				buf := make([]byte, r.Offset+len(data))
+				copy(buf[r.Offset:], data)
+				data = buf[r.Offset:]
+			}
 			h := dyncrc16.New()
 			prev := 0
 			for _, c := range append(r.Cuts, len(data)) {
@@ -82,6 +89,7 @@ func init() {
 
 func runC14(w *vx.W) {
 	c14FirstUse(w)
+	c14Alignment(w)
 	// inverse table: state -> 2-byte prefix, from the reference model
 	var prefix [65536][2]byte
 	var seen [65536]bool
@@ -97,7 +105,7 @@ func runC14(w *vx.W) {
 	}
 	bad := func(kind string, data []byte, cuts []int, want, got uint16) {
 		w.Violation("crc/"+kind, fmt.Sprintf("%s: data=%x cuts=%v reference=%#04x implementation=%#04x", kind, data, cuts, want, got),
-			c14Replay{kind, vx.Hex(data), cuts, want, got})
+			c14Replay{kind, vx.Hex(data), cuts, want, got, 0})
 	}
 	// 1. transition system
 	for s := 0; s < 65536; s++ {
@@ -388,6 +396,39 @@ func c14Sub(args []string) {
 			sum = uint16(s[1])<<8 | uint16(s[2])
 		}
 		fmt.Printf("%04x\n", sum)
+	}
+}
+
+// c14Alignment: the sum must not depend on where the bytes live: every start offset 0..16 inside a larger buffer
+// (so every address alignment modulo 8 and 16) x lengths around the powers of two up to 8192, through Checksum and
+// through one Write, plus a two-part Write cut at every offset 0..16.
+func c14Alignment(w *vx.W) {
+	if w.Shard != 0 {
+		return
+	}
+	big := c14Pattern(9000)
+	for _, n := range []int{1, 7, 8, 9, 15, 16, 17, 31, 32, 33, 63, 64, 65, 127, 128, 129, 255, 256, 257, 511, 512, 513, 1023, 1024, 1025, 4095, 4096, 4097, 8191, 8192} {
+		for off := 0; off <= 16; off++ {
+			data := big[off : off+n]
+			want := fitmodel.CRC(data)
+			w.Eval(3)
+			w.Fam("alignment", 1)
+			if got := dyncrc16.Checksum(data); got != want {
+				w.Violation("crc/alignment", fmt.Sprintf("Checksum of %d bytes starting %d bytes into a buffer: %#04x, reference %#04x", n, off, got, want), c14Replay{"alignment", vx.Hex(data), nil, want, got, off})
+			}
+			h := dyncrc16.New()
+			h.Write(data)
+			if got := h.Sum16(); got != want {
+				w.Violation("crc/alignment", fmt.Sprintf("Write of %d bytes starting %d bytes into a buffer: %#04x, reference %#04x", n, off, got, want), c14Replay{"alignment", vx.Hex(data), nil, want, got, off})
+			}
+			whole := big[:n+16]
+			h2 := dyncrc16.New()
+			h2.Write(whole[:off])
+			h2.Write(whole[off:])
+			if got, want2 := h2.Sum16(), fitmodel.CRC(whole); got != want2 {
+				w.Violation("crc/alignment", fmt.Sprintf("Write of %d bytes cut at %d: %#04x, reference %#04x", len(whole), off, got, want2), c14Replay{"alignment", vx.Hex(whole), []int{off}, want2, got, 0})
+			}
+		}
 	}
 }
 
